@@ -864,6 +864,16 @@ func glueTyped(r *Rng, st *Stats, n int) {
 		}
 		cases = append(cases, gcase{p: p, opts: fmt.Sprintf("tsx=%v esm=%v minify-whitespace=%v minify-syntax=%v target=%s format=%d", g.tsx, g.esm, minWS, minSyn, tname, format), tsLoader: tsL, jsLoader: jsL, mk: mk})
 	}
+	for i := 0; i < n/4+8; i++ {
+		ie := genImportEquals(r)
+		kinds["import-equals"]++
+		minWS := r.Chance(30)
+		mk := func(l api.Loader) api.TransformOptions {
+			return api.TransformOptions{Loader: l, LogLevel: api.LogLevelSilent, MinifyWhitespace: minWS, TsconfigRaw: agreeTsconfig}
+		}
+		// namespaces are not JavaScript: the untyped counterpart also goes through the ts loader
+		cases = append(cases, gcase{p: ie.p, opts: fmt.Sprintf("%s minify-whitespace=%v (both sides ts loader)", ie.desc, minWS), tsLoader: api.LoaderTS, jsLoader: api.LoaderTS, mk: mk})
+	}
 	for i, c := range cases {
 		evalTypedCase(st, c, i < 3)
 	}
